@@ -63,13 +63,16 @@ def ns_case(draw):
         entry = "stream_frames"
     ki, kd = gen.needs(stmts)
     ki = max(ki, 1)
+    # tables smaller than one statement needs (1..ki-1) are included: there a statement must be refused, with or
+    # without declarations in front of it
     preset = [draw(st.sampled_from([max(8, ki), max(8, ki) + 1, 4000])),
-              draw(st.sampled_from(sorted({0, ki, ki + 1, 150} - set(range(1, ki))))),
+              draw(st.sampled_from(sorted({0, ki, ki + 1, 150} | set(range(1, ki))))),
               draw(st.sampled_from([max(kd, 0), kd + 1, 32])) if kd else draw(st.sampled_from([0, 32]))]
     return {"integration": integration, "phys": phys, "statements": stmts, "bindings": bindings, "entry": entry,
             "logical": 1 if phys == "TRIPLES" else 2, "delimited": draw(st.integers(0, 3)) != 0,
             "frame_size": draw(st.sampled_from([1, 3, 250])), "preset": preset,
             "graph_defaults": draw(st.booleans()),
+            "explicit_version": draw(st.sampled_from([None, None, None, 1, 2])),
             "params": {"generalized": integration == "generic", "rdf_star": integration == "generic", "stream_name": ""}}
 
 
@@ -110,6 +113,8 @@ def write(case, source, on: bool):
     integ = case["integration"]
     cfg = dict(case)
     cfg["params"] = dict(case["params"], namespace_declarations=on)
+    if case.get("explicit_version") is not None:
+        cfg["params"]["version"] = case["explicit_version"]
     if case["entry"] == "serialize":
         stream = pyj.make_stream(cfg, "rdflib")
         return source.serialize(format="jelly", encoding="jelly", stream=stream, options=stream.options), case["delimited"]
@@ -145,12 +150,37 @@ def body(case, acc):
     try:
         off, delim = write(case, source, False)
     except Exception as exc:  # noqa: BLE001
+        # refused without declarations (e.g. a table too small for a statement): with declarations the call must
+        # either be refused as well or write something that still decodes to the input
         if acc is not None:
             acc.case(case, False, ["write_off_raises"])
-        return None  # not this property's business (C01/C06)
+        try:
+            on, delim = write(case, build_source(case), True)
+        except Exception:  # noqa: BLE001
+            return None
+        r_on = jellyref.decode(on, case["delimited"] if case["entry"] != "flat_generator" else True, "strict") if on else None
+        if r_on is None or r_on.error is not None:
+            return Violation("C14:declarations-turn-refusal-into-invalid-output", f"refused without declarations ({exc!r}); "
+                             f"with declarations an undecodable file is written: {r_on.error if r_on else 'no bytes'}", case)
+        got = [[list(T.norm(t)) for t in s] for s in r_on.statements]
+        if integ == "generic" or from_gen:
+            conv = (lambda t: T.norm(t)) if integ == "generic" else (lambda t: T.norm(T.rdflib_canon(t)))
+            want = [[list(conv(t)) for t in s] for s in case["statements"]]
+            ok = got == want
+        else:
+            ok = {repr(s) for s in got} == {repr([list(T.norm(t)) for t in s]) for s in pyj.sink_events(source, "rdflib")}
+        if not ok:
+            return Violation("C14:declarations-turn-refusal-into-wrong-data", f"refused without declarations ({exc!r}); with "
+                             f"declarations a file is written that decodes to different statements", case)
+        return None
     try:
         on, _ = write(case, build_source(case), True)
     except Exception as exc:  # noqa: BLE001
+        if isinstance(exc, Exception) and "cannot hold all the entries" in str(exc):
+            # declarations occupy table slots too: a tight table may legitimately refuse once they are added
+            if acc is not None:
+                acc.count("refused_only_with_declarations")
+            return None
         return Violation(f"C14:enabling-declarations-breaks-serialisation:{case['entry']}:{type(exc).__name__}",
                          f"{integ} {case['entry']} {case['phys']}: works with the option off, raises {exc!r} with it on", case)
     if not case["statements"] and not off:
@@ -231,6 +261,12 @@ def body(case, acc):
                 from pyjelly.integrations.rdflib.serialize import stream_frames
             again = pyj.frames_to_bytes(stream_frames(stream, sink), case["delimited"])
         except Exception as exc:  # noqa: BLE001
+            if "cannot hold all the entries" in str(exc):
+                # under-sized table: whether a statement fits depends on which terms repeat, i.e. on statement order,
+                # which an rdflib container does not preserve - a refusal here is legitimate
+                if acc is not None:
+                    acc.count("reserialise_refused_tiny_table")
+                return None
             return Violation(f"C14:reserialise-raises:{type(exc).__name__}", f"re-serialising the parsed object raised {exc!r}", case)
         r2 = jellyref.decode(again, case["delimited"], "strict")
         if r2.error is not None:
